@@ -1479,6 +1479,8 @@ class Engine:
             raise Unsupported('len')
         if name == 'append':
             a, b = args
+            if isinstance(b, SliceV) and is_sym(b.len) and isinstance(a, SliceV) and not is_sym(a.len) and a.len == 0:
+                return b        # append(empty, src...) with a source of symbolic length: the elements of the source
             if not isinstance(b, SliceV) or is_sym(b.len):
                 raise Unsupported('append variadic symbolic')
             elem_t = self.T(self.under(ins['type'])[0])['elem']
